@@ -40,5 +40,8 @@ bool vf_le_exit(const LE *e) { return le_get_exit(e, 0); }
 unsigned vf_le_level(const LE *e) { return unsigned(e->_level); }
 unsigned vf_le_val(const LE *e) { return e->_val; }
 bool vf_le_empty(const LE *e) { return e->_str.empty(); }
+// text of an element read through the libstdc++ string layout {char *p; size_t n; ...} (the out-of-line size()/operator[] are not part of the model)
+unsigned vf_le_len(const LE *e) { return unsigned(reinterpret_cast<const size_t*>(&e->_str)[1]); }
+unsigned vf_le_byte(const LE *e, unsigned i) { const char *p = *reinterpret_cast<const char *const *>(&e->_str); return i < vf_le_len(e) ? (unsigned char)p[i] : 0; }
 unsigned vf_le_size() { return sizeof(LE); }
 }
